@@ -51,9 +51,13 @@ func soupLockstep(rig *lockRig, c *soupCase, kinds map[string]bool) (msg string,
 				}
 			}
 		}
+		pending := rig.mReq != nil && (rig.mReq.NMI || rig.ms.IFF1)
 		o := rig.step()
 		if o.skipped {
 			return "", s, true, classes
+		}
+		if pending && len(o.discs) > 0 && !kinds[eng.KIntr] {
+			return "", s, true, classes // a discrepancy on a Step that should accept a request is C06's business
 		}
 		for _, d := range o.discs {
 			if kinds[d.Kind] || d.Kind == eng.KPanic {
@@ -99,6 +103,9 @@ func TestC01Soup(t *testing.T) {
 	rig := newLockRig()
 	rapid.Check(t, func(t *rapid.T) {
 		c := genSoup(t, 24, 64)
+		if rapid.IntRange(0, 2).Draw(t, "intr?") == 0 {
+			genSoupIntr(t, &c, 2) // instructions must behave the same while a request is pending and refused
+		}
 		msg, steps, trunc, _ := soupLockstep(rig, &c, stepKinds["C01"])
 		col.Eval(1)
 		if msg != "" {
